@@ -183,6 +183,7 @@ func specSameQuota(ue *chf_context.ChfUe, old map[int32]int64) bool {
 //@   assert "seq := self.LocalRecordSequenceNumber": [C09] verif_held(&self.Mutex)
 //@   assert "ue.Records = append(": [C02 C10] ue.Cdr[chargingSessionId] == cdr && cdr != nil && cdr.ChargingFunctionRecord != nil
 //@   assert "ue.Cdr[chargingSessionId] = cdr": [C09] verif_held(&ue.CULock)
+//@   assert "ue.Cdr[chargingSessionId] = cdr": [C10] !chargingData.OneTimeEvent ==> ue.Cdr[chargingSessionId] == nil
 //@   assert "return &responseBody, locationURI, nil": [C12] ue.NotifyUri == chargingData.NotifyUri
 //@   assert "return &responseBody, locationURI, nil": [C10 C12] locationURI == self.Url+"/nchf-convergedcharging/v3/chargingdata/"+chargingSessionId && ue.Cdr[chargingSessionId] == cdr
 
